@@ -208,7 +208,9 @@ def forced_history(ctx, _state={"i": 0}):
     else:
         ep = ["allocfail %d" % j, "comment - %s %s" % (hexs(b"keep1"), hexs(b"k" * 79)), "allocfail 0",
               "allocfail %d" % j, "mkdir %s %s" % (kd, hexs(b"e22_sixteen_ch")), "allocfail 0"]
-    L += ep + ["free", "list - 0 0", "list %s 0 0" % kd, "list %s 1 0" % kd, "dump $W/img2", "spectree", "umount", "umountdev", "mountdev 0", "mount 0 0",
+    # in the same session (the in-memory bitmap is what the failed call may have left wrong): allocate again, which also writes the bitmap
+    follow = ["mkdir - %s" % hexs(b"followup"), "open 4 - %s w" % hexs(b"follow2"), "write 4 9 %d" % (2 * bs + 1), "close 4", "mkdir %s %s" % (kd, hexs(b"fw"))]
+    L += ep + ["free", "list - 0 0", "list %s 0 0" % kd, "list %s 1 0" % kd, "dump $W/img2", "spectree"] + follow + ["free", "list %s 1 0" % kd, "dump $W/img2b", "spectree", "umount", "umountdev", "mountdev 0", "mount 0 0",
                "open 3 - %s r" % hexs(b"keep1"), "read 3 %d" % (200 * bs), "close 3", "list %s 1 0" % kd,
                "mkdir %s %s" % (kd, hexs(b"after")), "free", "dump $W/img3", "spectree", "umount", "umountdev"]
     return L, 0, 1760, {"flavour": flav, "fail_from_request": j, "kind": kind, "episode": ep}
